@@ -2619,6 +2619,9 @@ func (x *actorSystem) attachAndPublish(ctx context.Context, parent, pid *PID) (*
 	}
 	x.actors.addWatcher(pid, x.deathWatch)
 
+	// the actor is attached and supervised: let it process its PostStart
+	pid.startAttached()
+
 	if err := x.publishSpawnedActor(ctx, pid); err != nil {
 		x.rollbackSpawn(ctx, pid, "failed cluster publication")
 		return nil, err
@@ -3934,6 +3937,10 @@ func (x *actorSystem) configPID(ctx context.Context, name string, actor Actor, o
 
 	if !spawnConfig.relocatable {
 		pidOpts = append(pidOpts, withRelocationDisabled())
+	}
+
+	if spawnConfig.postStartOnAttach {
+		pidOpts = append(pidOpts, withPostStartOnAttach())
 	}
 
 	// enable stash
